@@ -105,7 +105,9 @@ def run_case(ctx, kind, rng, idx):
     bname = ['normalize', 'transpose', 'mle'][int(rng.integers(0, 3))]
     # the Prinz iteration converges very slowly on periodic chains (minutes
     # in pure Python): periodic structures only for the two direct builders
-    C = mc.strongly_connected_counts(rng, allow_periodic=bname != 'mle')
+    C = mc.strongly_connected_counts(
+        rng, n=1 if rng.random() < 0.04 else None,    # one-state models too
+        allow_periodic=bname != 'mle')
     if rng.random() < 0.3:
         mx = float(np.max(C))
         if np.issubdtype(C.dtype, np.integer):
